@@ -311,3 +311,126 @@ theorem postReturn_total_of_needed (f : Func) (hv : f.valid = true) (h : needsPo
   exact postReturn_total f (needsDeallocOpt_flat f.result h hv.2)
 
 end Witverif.Abi
+
+namespace Witverif.Abi
+
+/-- a method's first parameter is its `self` handle (one flat slot); this is what makes
+`CoreTy.ptr :: pf.drop 1` as long as `pf` in `wasm_signature` -/
+def Func.methodOk (f : Func) : Bool :=
+  !f.isMethod || (match f.params with | .borrow :: _ | .own :: _ => true | _ => false)
+
+theorem methodOk_length (f : Func) (h : f.methodOk = true) (hm : f.isMethod = true) :
+    (CoreTy.ptr :: (flattenList f.params).drop 1).length = (flattenList f.params).length := by
+  simp [Func.methodOk, hm] at h
+  match hp : f.params, h with
+  | .borrow :: ts, _ => simp [flattenList, flatten]
+  | .own :: ts, _ => simp [flattenList, flatten]
+
+/-- **Host side of an export** (`call(GuestExport, LowerArgsLiftResults)`: the caller of an exported core
+function — used by the C02 host model, by no guest backend): never panics either. -/
+theorem call_export_hostside_total (canon : Ty → Bool) (f : Func) (hv : f.valid = true) (hm : f.methodOk = true) :
+    ∃ ss, call canon .guestExport true false f = .ok ss := by
+  simp [Func.valid] at hv
+  by_cases hind : (flattenList f.params).length > 16
+  · have ⟨sp, hsp⟩ := storeParams_total ⟨canon, true⟩ f.params (fieldOffs f.params) 0
+      (Expr.res 0 (Op.malloc (recordSizeOff f.params) (recordAlignOff f.params)) [])
+    by_cases hret : (flattenOpt f.result).length > 1
+    · cases hres : f.result with
+      | none => simp [hres, flattenOpt] at hret
+      | some t =>
+        have ⟨fo, hfo⟩ := fieldOffs_singleton t
+        have hl := fun a => load_total ⟨canon, true⟩ t 0 a (Off.zero + fo)
+        rw [hres] at hret
+        simp [call, wasmSignature, maxFlatParams, maxFlatResults, hind, hret, hres, Variant.isExport, hsp, optTys,
+          hfo, loadFields, resN_length, resN, hd, bind, Except.bind, pure, Except.pure]
+        obtain ⟨r, hr⟩ := hl (Expr.res 0 (Op.callWasm [CoreTy.ptr] [CoreTy.ptr])
+          [Expr.res 0 (Op.malloc (recordSizeOff f.params) (recordAlignOff f.params)) []])
+        simp [hr]
+    · cases hres : f.result with
+      | none =>
+        simp [call, wasmSignature, maxFlatParams, maxFlatResults, hind, hres, flattenOpt, Variant.isExport, hsp,
+          resN, bind, Except.bind, pure, Except.pure]
+      | some t =>
+        rw [hres] at hret hv
+        simp only [flattenOpt, flistsNonEmptyOpt] at hret hv
+        have ht : (flatten t).length ≤ 16 := by omega
+        obtain ⟨r, hr⟩ := lift_total ⟨canon, true⟩ t 0 (resN (Op.callWasm [CoreTy.ptr] (flatten t))
+          [Expr.res 0 (Op.malloc (recordSizeOff f.params) (recordAlignOff f.params)) []] (flatten t).length) ht hv.2
+        simp [call, wasmSignature, maxFlatParams, maxFlatResults, hind, hret, hres, flattenOpt, Variant.isExport, hsp,
+          resN_length, hr, bind, Except.bind, pure, Except.pure]
+  · have ⟨⟨s0, st0⟩, hlp⟩ := lowerParams_total ⟨canon, true⟩ f.params 0 (by omega)
+    have hlen := lowerParams_length _ _ _ _ _ hlp
+    have hplen : (if f.isMethod = true then CoreTy.ptr :: (flattenList f.params).drop 1 else flattenList f.params).length
+        = (flattenList f.params).length := by
+      by_cases hmm : f.isMethod = true
+      · rw [if_pos hmm]; exact methodOk_length f hm hmm
+      · rw [if_neg hmm]
+    by_cases hret : (flattenOpt f.result).length > 1
+    · cases hres : f.result with
+      | none => simp [hres, flattenOpt] at hret
+      | some t =>
+        have ⟨fo, hfo⟩ := fieldOffs_singleton t
+        have hl := fun a => load_total ⟨canon, true⟩ t 0 a (Off.zero + fo)
+        rw [hres] at hret
+        simp only [List.drop_one] at hplen
+        simp [call, wasmSignature, maxFlatParams, maxFlatResults, hind, hret, hres, Variant.isExport, hlp, hlen, hplen,
+          optTys, hfo, loadFields, resN_length, resN, hd, bind, Except.bind, pure, Except.pure]
+        obtain ⟨r, hr⟩ := hl (Expr.res 0 (Op.callWasm
+          (if f.isMethod = true then CoreTy.ptr :: (flattenList f.params).tail else flattenList f.params) [CoreTy.ptr]) st0)
+        simp [hr]
+    · cases hres : f.result with
+      | none =>
+        simp only [List.drop_one] at hplen
+        simp [call, wasmSignature, maxFlatParams, maxFlatResults, hind, hres, flattenOpt, Variant.isExport, hlp, hlen,
+          hplen, resN, bind, Except.bind, pure, Except.pure]
+      | some t =>
+        rw [hres] at hret hv
+        simp only [flattenOpt, flistsNonEmptyOpt] at hret hv
+        have ht : (flatten t).length ≤ 16 := by omega
+        have hl := fun xs => lift_total ⟨canon, true⟩ t 0 xs ht hv.2
+        simp only [List.drop_one] at hplen
+        simp [call, wasmSignature, maxFlatParams, maxFlatResults, hind, hret, hres, flattenOpt, Variant.isExport, hlp,
+          hlen, hplen, resN_length, bind, Except.bind, pure, Except.pure]
+        obtain ⟨r, hr⟩ := hl (resN (Op.callWasm
+          (if f.isMethod = true then CoreTy.ptr :: (flattenList f.params).tail else flattenList f.params) (flatten t))
+          st0 (flatten t).length)
+        simp [hr]
+
+end Witverif.Abi
+
+namespace Witverif.Abi
+
+/-- **Host side of an import** (`call(GuestImport, LiftArgsLowerResults)`: the callee of an imported core
+function — used by the C02 host model, by no guest backend): never panics either. -/
+theorem call_import_hostside_total (canon : Ty → Bool) (f : Func) (hv : f.valid = true) :
+    ∃ ss, call canon .guestImport false false f = .ok ss := by
+  simp [Func.valid] at hv
+  have ⟨args, hargs⟩ := exportArgs_total ⟨canon, true⟩ f hv.1
+  cases hres : f.result with
+  | none =>
+    simp [call, wasmSignature, maxFlatParams, maxFlatResults, hres, flattenOpt, Variant.isExport, hargs,
+      bind, Except.bind, pure, Except.pure]
+  | some t =>
+    rw [hres] at hv
+    simp only [flistsNonEmptyOpt] at hv
+    by_cases hret : (flatten t).length > 1
+    · have ⟨fo, hfo⟩ := fieldOffs_singleton t
+      have hst := fun a => store_total ⟨canon, true⟩ t 0
+        (Expr.res 0 (Op.callInterface f.params.length 1 false) args) a (Off.zero + fo)
+      by_cases hind : 16 < (flattenList f.params).length
+      · obtain ⟨ss, hss⟩ := hst (Expr.arg 1)
+        rw [if_pos hind] at hargs
+        simp [call, wasmSignature, maxFlatParams, maxFlatResults, hres, flattenOpt, Variant.isExport, hargs, hret, hind,
+          optTys, hfo, storeFields, resN, hss, hd, bind, Except.bind, pure, Except.pure]
+      · obtain ⟨ss, hss⟩ := hst (Expr.arg (flattenList f.params).length)
+        rw [if_neg hind] at hargs
+        simp [call, wasmSignature, maxFlatParams, maxFlatResults, hres, flattenOpt, Variant.isExport, hargs, hret, hind,
+          optTys, hfo, storeFields, resN, hss, hd, bind, Except.bind, pure, Except.pure]
+    · have ht : (flatten t).length ≤ 16 := by omega
+      have ⟨⟨s2, st⟩, hlow⟩ := lower_total ⟨canon, true⟩ t 0
+        (Expr.res 0 (Op.callInterface f.params.length 1 false) args) ht
+      have hlen := (lower_shape _ _ _ _ _ _ hlow).2
+      simp [call, wasmSignature, maxFlatParams, maxFlatResults, hres, flattenOpt, Variant.isExport, hargs, hret,
+        resN, hd, hlow, hlen, bind, Except.bind, pure, Except.pure]
+
+end Witverif.Abi
